@@ -108,7 +108,7 @@ theorem step_noFail (s : State) (a : Act) (hi : Inv s) (hna : a ≠ .intoEntries
   | stamp h => simp only [step, stamp]; split <;> (try split) <;> (try split) <;> rfl
   | release h => exact release_noFail s h hi
   | snapshot hids => simp only [step, snapshot, hi.notWedged, Bool.false_eq_true, ↓reduceIte]; split <;> rfl
-  | expire d hids => simp only [step, expire, hi.notWedged, Bool.false_eq_true, ↓reduceIte]; split <;> (try split) <;> rfl
+  | expire d hids => simp only [step, expireAt, hi.notWedged, Bool.false_eq_true, ↓reduceIte]; split <;> (try split) <;> rfl
   | count => simp [step, count, hi.notWedged, Out.isFailure]
   | keys => simp [step, keys, hi.notWedged, Out.isFailure]
   | intoEntries => exact absurd rfl hna
